@@ -1,11 +1,10 @@
 /-
   C12/Model — transcription of otto's Date code (UTC entry points).
-    type_date.go:     dateObject (l.10), invalidDateObject (l.17), ecmaTime (l.24), newEcmaTime (l.35),
-                      ecmaTime.goTime (l.48), SetTime (l.81), Set (l.85), epochToInteger (l.103),
-                      epochToTime (l.110), timeToEpoch (l.122), newDateTime (l.166), dateParse (l.264)
-    builtin_date.go:  toISOString (l.65), toJSON (l.73), getTime (l.97), setTime (l.107),
-                      builtinDateBeforeSet (l.115), Date.UTC (l.156), valueOf (l.192), getUTC* (l.220–339),
-                      setUTC* (l.374–614)
+    type_date.go:     dateObject, invalidDateObject, ecmaTime, newEcmaTime, ecmaTime.goTime, SetTime, Set,
+                      maxTimeValue, epochToInteger, epochToTime, timeToEpoch, newDateTime, dateParse
+    builtin_date.go:  toISOString, toJSON, getTime, setTime, builtinDateBeforeSet, Date.UTC, valueOf, getUTC*,
+                      setUTC* (setUTCFullYear with its restart from +0)
+    (the "l.NNN" references below are to the tree before the Date fix: commits)
     value_number.go:  Value.number (l.149) as used by builtinDateBeforeSet
   Go's package time is a STUB transcribed from go1.23 src/time/time.go (norm l.1484, Date l.1516,
   daysSinceEpoch l.1114, absDate l.1012, absClock l.592, absWeekday l.543, Unix l.1445,
@@ -171,20 +170,26 @@ def thousand : FV := .fin false 1000 0
 def epochToInteger (v : FV) : Int :=
   if lt zero v then C05.goInt64 (floor v) else C05.goInt64 (ceil v)
 
-/-- epochToTime (l.110): `none` is the error return -/
+/-- maxTimeValue = 8.64e15 (type_date.go), exactly representable -/
+def maxTimeValue : FV := .fin false 8640000000000000 0
+
+/-- `math.Abs(x) > maxTimeValue` -/
+def beyondMax (x : FV) : Bool := lt maxTimeValue (abs x)
+
+/-- epochToTime: `none` is the error return (NaN, ±Inf, or beyond ±8.64e15: TimeClip) -/
 def epochToTime (v : FV) : Option GoTime :=
-  if isNaN v || isInf v then none
+  if isNaN v || isInf v || beyondMax v then none
   else
     let epoch := C05.goInt64 (div v thousand)
     let milli := goMod (C05.goInt64 v) 1000
     some (goUnix epoch (milli * 1000000))
 
-/-- dateObject.Set (l.85).  NOTE: isNaN is only ever set, never cleared. -/
-def DateObj.set (d : DateObj) (v : FV) : DateObj :=
+/-- dateObject.Set: isNaN is set on error and cleared on success. -/
+def DateObj.set (_d : DateObj) (v : FV) : DateObj :=
   let epoch := epochToInteger v
   match epochToTime v with
   | none => { time := goZeroTime, isNaN := true, epoch := -1, value := none }
-  | some tm => { time := tm, isNaN := d.isNaN, epoch := epoch, value := some epoch }
+  | some tm => { time := tm, isNaN := false, epoch := epoch, value := some epoch }
 
 /-- the zero dateObject{} of newDateObject (l.131) -/
 def zeroDateObj : DateObj := { time := goZeroTime, value := none, epoch := 0, isNaN := false }
@@ -209,9 +214,11 @@ def newDateTime (args : List FV) : Num :=
     | some x => if isNaN x || isInf x then none else some x
   match pick 0 (.fin false 1900 0), pick 1 zero, pick 2 one, pick 3 zero, pick 4 zero, pick 5 zero, pick 6 zero with
   | some year, some month, some day, some hour, some minute, some second, some ms =>
-    let year := if le zero year && le year (.fin false 99 0) then add year (.fin false 1900 0) else year
-    some (dateCore (C05.goInt64 year) (C05.goInt64 month) (C05.goInt64 day) (C05.goInt64 hour)
-               (C05.goInt64 minute) (C05.goInt64 second) (C05.goInt64 ms))
+    let integer := trunc year
+    let year := if le zero integer && le integer (.fin false 99 0) then add (.fin false 1900 0) integer else year
+    let um := dateCore (C05.goInt64 year) (C05.goInt64 month) (C05.goInt64 day) (C05.goInt64 hour)
+               (C05.goInt64 minute) (C05.goInt64 second) (C05.goInt64 ms)
+    if beyondMax (ofInt um) then none else some um          -- epoch := timeToEpoch(time); TimeClip
   | _, _, _, _, _, _, _ => none
 
 -- ---------------------------------------------------------------- builtin_date.go getters
@@ -306,6 +313,8 @@ def setUTC (k : Setter) (d : DateObj) (args : List FV) : DateObj × Num :=
     let d' := d.set (args.headD .nan)          -- call.Argument(0) is undefined → NaN when absent
     (d', d'.value)
   | _ =>
+    -- setUTCFullYear only: an invalid date restarts from +0 (zero := dateObject{}; zero.Set(0))
+    let d := if k = .year ∧ d.isNaN then newDate zero else d
     if d.isNaN then (d, none)
     else
       let args := args.take k.limit
@@ -343,15 +352,21 @@ inductive Str where
   | null
 deriving DecidableEq, Repr
 
-/-- Time.Format("2006-01-02T15:04:05.000Z") -/
+/-- fmt.Sprintf("%+07d", year): sign, then zero padding to six digits -/
+def goSprintfPlus07 (x : Int) : List Nat :=
+  let ds := natDigits 25 x.natAbs
+  (if x < 0 then [45] else [43]) ++ List.replicate (6 - ds.length) 48 ++ ds
+
+/-- builtinDateToISOString: Time.Format("2006-01-02T15:04:05.000Z"), the year written by
+    Sprintf("%+07d") when it is outside 0..9999 -/
 def goFormatISO (t : GoTime) : List Nat :=
-  goAppendInt (goYear t) 4 ++ [45] ++ goAppendInt (goMonth t) 2 ++ [45] ++ goAppendInt (goDay t) 2 ++ [84]
+  (if goYear t < 0 ∨ goYear t > 9999 then goSprintfPlus07 (goYear t) else goAppendInt (goYear t) 4) ++ [45] ++ goAppendInt (goMonth t) 2 ++ [45] ++ goAppendInt (goDay t) 2 ++ [84]
     ++ goAppendInt (goHour t) 2 ++ [58] ++ goAppendInt (goMinute t) 2 ++ [58] ++ goAppendInt (goSecond t) 2
     ++ [46] ++ (goAppendInt t.nsec 9).take 3 ++ [90]
 
-/-- builtinDateToISOString (l.65): "Invalid Date" for an invalid date (no exception) -/
+/-- builtinDateToISOString: RangeError for an invalid date -/
 def toISOString (d : DateObj) : Str :=
-  if d.isNaN then .ok [73, 110, 118, 97, 108, 105, 100, 32, 68, 97, 116, 101]
+  if d.isNaN then .rangeError
   else .ok (goFormatISO d.time)
 
 /-- builtinDateToJSON (l.73) on an unmodified Date object -/
@@ -369,25 +384,50 @@ def goDaysIn (month year : Int) : Int :=
   if month = 2 then (if goIsLeap year then 29 else 28)
   else goDaysBefore month - goDaysBefore (month - 1)
 
-/-- dateParse (l.264) restricted to the 24-byte shape `dddd-dd-ddTdd:dd:dd.dddZ`:
-    the zone regexp rewrites `Z` to `+0000`, layout "2006-01-02T15:04:05-0700" is the first to accept
-    (time.Parse takes the fractional second although the layout has none); time.Parse range-checks
-    month 1..12, day 1..daysIn, hour < 24, minute < 60, second < 60.  Any other shape: not modelled (`none`).
-    Result `some none` = NaN. -/
+/-- time.Parse on `dddd-dd-ddTdd:dd:dd.ddd+0000` (the tail fields already converted), then
+    `AddDate(shift, 0, 0)` (= Date(year+shift, …) on the same fields), UnixMilli, TimeClip. -/
+def parseFields (year shift mo dd hh mi ss ms : Int) : Num :=
+  if mo ≤ 0 ∨ 12 < mo ∨ hh ≥ 24 ∨ mi ≥ 60 ∨ ss ≥ 60 ∨ dd < 1 ∨ dd > goDaysIn mo year then none
+  else
+    let um := goUnixMilli (goDate (year + shift) mo dd hh mi ss (ms * 1000000))
+    if beyondMax (ofInt um) then none else some um
+
+/-- the part of an ISO string after the year: `-dd-ddTdd:dd:dd.dddZ` -/
+def parseTail (s : List Nat) : Option (Int × Int × Int × Int × Int × Int) :=
+  match s with
+  | [45, m1, m2, 45, d1, d2, 84, h1, h2, 58, i1, i2, 58, s1, s2, 46, f1, f2, f3, 90] =>
+    match num2? m1 m2, num2? d1 d2, num2? h1 h2, num2? i1 i2, num2? s1 s2, digitVal? f1, num2? f2 f3 with
+    | some mo, some dd, some hh, some mi, some ss, some fa, some fb => some (mo, dd, hh, mi, ss, fa * 100 + fb)
+    | _, _, _, _, _, _, _ => none
+  | _ => none
+
+/-- dateParse restricted to the shapes toISOString produces: `dddd-dd-ddTdd:dd:dd.dddZ` and the
+    expanded-year form `±dddddd-dd-ddTdd:dd:dd.dddZ`.  The zone regexp rewrites `Z` to `+0000`; an
+    expanded year is read by strconv.Atoi ("-000000" is rejected), replaced by the same year of the
+    400-year cycle from 2000 and put back by AddDate; layout "2006-01-02T15:04:05-0700" is the
+    first to accept (time.Parse takes the fractional second although the layout has none);
+    time.Parse range-checks month 1..12, day 1..daysIn, hour < 24, minute < 60, second < 60.
+    Any other shape: not modelled (`none`).  Result `some none` = NaN. -/
 def dateParseISO (s : List Nat) : Option Num :=
   match s with
   | [y1, y2, y3, y4, 45, m1, m2, 45, d1, d2, 84, h1, h2, 58, i1, i2, 58, s1, s2, 46, f1, f2, f3, 90] =>
-    match num2? y1 y2, num2? y3 y4, num2? m1 m2, num2? d1 d2, num2? h1 h2, num2? i1 i2, num2? s1 s2,
-          digitVal? f1, num2? f2 f3 with
-    | some ya, some yb, some mo, some dd, some hh, some mi, some ss, some fa, some fb =>
-      let year := ya * 100 + yb
-      if mo ≤ 0 ∨ 12 < mo ∨ hh ≥ 24 ∨ mi ≥ 60 ∨ ss ≥ 60 ∨ dd < 1 ∨ dd > goDaysIn mo year then some none
-      else some (some (goUnixMilli (goDate year mo dd hh mi ss ((fa * 100 + fb) * 1000000))))
-    | _, _, _, _, _, _, _, _, _ => some none
+    match num2? y1 y2, num2? y3 y4, parseTail [45, m1, m2, 45, d1, d2, 84, h1, h2, 58, i1, i2, 58, s1, s2, 46, f1, f2, f3, 90] with
+    | some ya, some yb, some (mo, dd, hh, mi, ss, ms) => some (parseFields (ya * 100 + yb) 0 mo dd hh mi ss ms)
+    | _, _, _ => some none
+  | [sg, y1, y2, y3, y4, y5, y6, 45, m1, m2, 45, d1, d2, 84, h1, h2, 58, i1, i2, 58, s1, s2, 46, f1, f2, f3, 90] =>
+    if sg ≠ 43 ∧ sg ≠ 45 then none else
+    match num2? y1 y2, num2? y3 y4, num2? y5 y6, parseTail [45, m1, m2, 45, d1, d2, 84, h1, h2, 58, i1, i2, 58, s1, s2, 46, f1, f2, f3, 90] with
+    | some ya, some yb, some yc, some (mo, dd, hh, mi, ss, ms) =>
+      let u := ya * 10000 + yb * 100 + yc
+      let year := if sg = 45 then -u else u
+      if year = 0 ∧ sg = 45 then some none
+      else
+        let inCycle := 2000 + goMod (goMod year 400 + 400) 400
+        some (parseFields inCycle (year - inCycle) mo dd hh mi ss ms)
+    | _, _, _, _ => some none
   | _ => none
 
-/-- Date.parse(d.toISOString()) for a valid date; strings of any other shape come back NaN
-    (every layout in dateLayoutList starts with a 4-digit year, time.Parse rejects the rest). -/
+/-- Date.parse(d.toISOString()) for a valid date (an invalid one throws before Date.parse runs) -/
 def parseOfISO (d : DateObj) : Num :=
   match toISOString d with
   | .ok s => (dateParseISO s).getD none
